@@ -432,6 +432,8 @@ def eigh(a):
 
 @eigh.register(FermionicArray)
 def eigh_fermionic(a):
+    # the blocks are decomposed directly, so lazy phases must be applied first
+    a = a.phase_sync()
     eigenvalues, eigenvectors = eigh.dispatch(AbelianArray)(a)
 
     if not a.indices[1].dual:
@@ -483,7 +485,8 @@ def solve(a, b):
 
 @solve.register(FermionicArray)
 def solve_fermionic(a, b):
-    x = solve.dispatch(AbelianArray)(a, b)
+    # the blocks are used directly, so lazy phases must be applied first
+    x = solve.dispatch(AbelianArray)(a.phase_sync(), b.phase_sync())
 
     if x.indices[0].dual:
         # inner index is like |x><x| so introduce a phase flip
